@@ -33,6 +33,23 @@ GROUPS = {
     },
 }
 
+GROUPS["graph_nodes"] = {
+    "module": "graph::verif_kani",
+    "hook_file": "crates/liwe/src/graph.rs",
+    "repo": "crates/liwe/src/graph/graph_node.rs (constructors, accessors, set_next_id, set_child_id)",
+    "quick": ["node_ctor_links", "node_ctor_links_payload", "node_setters_frame"],
+    "thorough": [],
+    "kind": "complete: loop-free, every id / line id symbolic over its full machine domain (payload strings concrete, never inspected)",
+}
+GROUPS["ranges"] = {
+    "module": "graph::sections_builder::verif_kani",
+    "hook_file": "crates/liwe/src/graph/sections_builder.rs",
+    "repo": "crates/liwe/src/graph/sections_builder.rs (fn ranges)",
+    "quick": ["ranges_n0", "ranges_n1", "ranges_n2", "ranges_n3", "ranges_n4"],
+    "thorough": ["ranges_n5"],
+    "kind": "fixed-size n (n = digit in the harness name): positions and end fully symbolic under the contract's precondition",
+}
+
 # Verus obligation -> kani group used to look for a counterexample / to decide when Verus is undecided
 TWINS = {}
 
